@@ -27,6 +27,10 @@ CHECKS['C13'] = (T % ('equal wires (n 1..200), tapered wires (n x 5 lengths x 4 
          'Every parameter combination in the menu is constructed with the real code; rejected (assert) and fall-back combinations are counted separately.', 'taper contract and arc/helix formulas as documented', '3/C13')
 CHECKS['C17'] = (T % ('3-object structures (1-segment wires owning a junction or ground pulse, stars, chains, grounded wires, arc+helix+wire) x wire orders x orientations x 5 tag assignments x every pulse in both addressing forms for a source and for a load, plus every all-of-object and all-of-antenna attachment', 'the printed geometry table as ground truth (identical impedances for both forms, listings name the pulse, junction pulse under the later tag, diagonal of Z shifted exactly once per pulse)'),
          'Every pulse of every description in the bound is addressed through main() in both forms.', 'report parser; the geometry table is the reference by statement', '3/C17')
+CHECKS['C02'] = (T % ('all ordered pulse pairs >= 2.5 segments apart in every lattice structure with <=3 (thorough 4) wires (thin/thick radius assignments, both orientations, free space and ground, generic and axis-aligned lattices) and in every description of the arc/helix/taper junction structures', 'an independent adaptive-quadrature evaluation of the published MININEC-3 formulation from pulse point, far ends, radii and frequency'),
+         'Every qualifying pulse pair of every structure in the bound is compared (tens of thousands of matrix terms); worst deviation 3e-6 against the stated 1e-4.', 'scipy.integrate.quad; formulation as quoted in the statement', '3/C02')
+CHECKS['C10'] = (T % ('lattice structures with <=3 (thorough 4) wires and every description of the curved/tapered junction structures x 3 power/distance variants x a 7..13 x 10 direction grid', 'the reference radiation sum (moments at pulse points), the exact half-segment integral on the sub-alphabet, and the algebraic relations between dBi and V/m tables'),
+         'Every structure in the bound is solved and every direction of the grid compared. The 2 % clause is enumerated on the sub-alphabet (>=4 segments/wire, L<=lambda/32); two concrete inputs outside it are listed known findings.', 'MININEC constants named in the statement', '3/C10')
 NA = {}
 def main():
     src = subprocess.run(['git', '-C', '/repo', 'log', '--format=%H %s'], capture_output=True, text=True).stdout
